@@ -370,6 +370,10 @@ func BuildAuthorityBase(priv ed25519.PrivateKey, rng io.Reader, b m.Block, keyID
 	case keyID != nil && len(base) > 0:
 		st := datalog.SymbolTable(append([]string{}, base...))
 		builder = biscuit.NewBuilder(priv, biscuit.WithRNG(rng), biscuit.WithRootKeyID(*keyID), biscuit.WithSymbols(&st))
+	case keyID != nil && *keyID%2 == 1:
+		// the order in which options are given must not matter: odd ids are given before the
+		// random source, even ids after it
+		builder = biscuit.NewBuilder(priv, biscuit.WithRootKeyID(*keyID), biscuit.WithRNG(rng))
 	case keyID != nil:
 		builder = biscuit.NewBuilder(priv, biscuit.WithRNG(rng), biscuit.WithRootKeyID(*keyID))
 	case len(base) > 0:
